@@ -18,7 +18,7 @@ def needs(pid, tier):
         'C07': (['ws-default'], gen, False),
         'C08': (['fixture-cg', 'ws-default'], gen, False),
         'C09': (['fixture-cg', 'ws-default'], [], False),
-        'C10': (['fixture-cg', 'ws-default'] + (['codegen-sm'] if t else []), gen, False),
+        'C10': (['fixture-cg', 'ws-default', 'logos-forbid'] + (['codegen-sm'] if t else []), gen, False),
         'C11': (['fixture-cg', 'ws-default'], gen, False),
         'C12': (['fixture-cg', 'ws-default'], gen, False),
         'C13': (['fixture-rt', 'ws-default'] + (['logos-forbid'] if t else []), gen, False),
